@@ -283,6 +283,15 @@ func (s *Sys) execX(op []string, note func(string, ...any)) string {
 			return "source:" + clip(r)
 		}
 		if err := s.h.tree.SaveSnapshot(); err != nil {
+			// while the asynchronous pruners started by "x prune n nowait" are still running the
+			// snapshot may be refused (SQLite: cannot start a transaction within a transaction):
+			// an error, no snapshot, nothing the property speaks about. The version is remembered
+			// as having no snapshot.
+			if t, l := s.h.log.counts(); t < s.h.prunes || l < s.h.prunes {
+				note("snapshot refused while pruning is in flight: %v", err)
+				s.badSnap[s.latest] = true
+				return "ok"
+			}
 			return "err:" + firstLine(err.Error())
 		}
 		return "ok"
